@@ -67,9 +67,16 @@ class SymCtx(Ctx):
         self.L = L
         self.np = L.np
         symlibs.h5_reset()
+        symlibs.MemFiles.files.clear()
         symnp.CONCRETE_MATH = False
         symnp.F32_EXACT = False
         L.np_random._global.reset()
+        # every execution gets file names of its own: state that the code under test keeps per path name (a cache keyed by
+        # file name, say) cannot leak from one explored path into the next
+        SymCtx._run += 1
+        self._tmp_prefix = "/mem/r%d/" % SymCtx._run
+
+    _run = 0
 
     def global_rng(self):
         """the model of the process-global numpy generator (np.random.*), with a log of (method, params)"""
@@ -136,7 +143,7 @@ class SymCtx(Ctx):
         return a == b
 
     def tmp(self, name):
-        return "/mem/" + name
+        return self._tmp_prefix + name
 
     def read_text(self, path):
         return symlibs.MemFiles.files[path]
@@ -352,6 +359,9 @@ class ShimCtx(ConcreteCtx):
         L.np_random._global.reset()
         L.np_random._global.source = self.values
         L.np_random._global.backend = _ShimBackend()
+        symlibs.MemFiles.files.clear()
+        SymCtx._run += 1
+        self._tmp_prefix = "/mem/r%d/" % SymCtx._run
 
     def mod(self, name):
         return self.L.load(name)
@@ -361,7 +371,7 @@ class ShimCtx(ConcreteCtx):
         return symlibs.Generator(stream, backend=_ShimBackend(), source=self.values)
 
     def tmp(self, name):
-        return "/mem/" + name
+        return self._tmp_prefix + name
 
     def read_text(self, path):
         return symlibs.MemFiles.files[path]
